@@ -5,6 +5,7 @@ package main
 import (
 	"context"
 	"encoding/binary"
+	"io"
 	"os"
 	"errors"
 	"fmt"
@@ -22,6 +23,8 @@ import (
 	"github.com/containerd/nri/pkg/adaptation"
 	"github.com/containerd/nri/pkg/api"
 	"github.com/containerd/nri/pkg/net/multiplex"
+	"google.golang.org/grpc/codes"
+	"google.golang.org/grpc/status"
 )
 
 const (
@@ -78,6 +81,40 @@ func (p *c07Peer) count(id string) int {
 	p.mu.Lock()
 	defer p.mu.Unlock()
 	return p.seen[id]
+}
+
+// c07VetoErr: the error a handler deliberately returns; k selects its kind. Whatever it is, it is the
+// handler's answer, not a transport failure.
+func c07VetoErr(k, pos int, id string) error {
+	switch k % 7 {
+	case 1:
+		return context.DeadlineExceeded
+	case 2:
+		return context.Canceled
+	case 3:
+		return status.Error(codes.DeadlineExceeded, fmt.Sprintf("veto-by-%d-of-%s", pos, id))
+	case 4:
+		return status.Error(codes.Unavailable, fmt.Sprintf("veto-by-%d-of-%s", pos, id))
+	case 5:
+		return io.EOF
+	case 6:
+		return errors.New("ttrpc: closed")
+	}
+	return fmt.Errorf("veto-by-%d-of-%s", pos, id)
+}
+
+func c07VetoText(k, pos int, id string) string {
+	switch k % 7 {
+	case 1:
+		return "deadline exceeded"
+	case 2:
+		return "canceled"
+	case 5:
+		return "EOF"
+	case 6:
+		return "ttrpc: closed"
+	}
+	return fmt.Sprintf("veto-by-%d-of-%s", pos, id)
 }
 
 func c07Contribution(kind, id string, pos int) (*api.ContainerAdjustment, []*api.ContainerUpdate) {
@@ -173,7 +210,7 @@ func newFaultyPeer(pos int, idx string, f *c07Fault) *c07Peer {
 			return false, errors.New("hung")
 		case "veto":
 			p.fired.Store(rig.Tick())
-			return false, fmt.Errorf("veto-by-%d-of-%s", pos, id)
+			return false, c07VetoErr(f.k, pos, id)
 		case "cut-response":
 			p.fired.Store(rig.Tick())
 			p.cut.ArmWrite(p.cut.Written() + int64(f.k))
@@ -445,7 +482,7 @@ func runC07Case(dir string, cs c07Case, tag string, res *ev.Result) {
 		// unless an earlier transport fault... the veto plugin is invoked if it is still there
 		if o1.err == nil {
 			viol("veto-ignored", fmt.Sprintf("the handler of plugin %d returned an error but the %s request succeeded", vp, cs.Req))
-		} else if !strings.Contains(o1.err.Error(), fmt.Sprintf("veto-by-%d-of-%s", vp, id1)) {
+		} else if !strings.Contains(o1.err.Error(), c07VetoText(cs.K, vp, id1)) {
 			viol("veto-error-lost", fmt.Sprintf("the request failed with %q, which does not carry the handler's error", o1.err))
 		}
 		if o1.has || len(o1.contrib) > 0 {
@@ -496,7 +533,6 @@ func runC07Case(dir string, cs c07Case, tag string, res *ev.Result) {
 			drops[p.pos] = true
 		}
 	}
-	before := map[int]int32{}
 	for _, p := range faulty {
 		if p.fault.kind == "close-after-reply" {
 			// the peer closes shortly after replying: wait until it actually has
@@ -512,7 +548,6 @@ func runC07Case(dir string, cs c07Case, tag string, res *ev.Result) {
 			drops[p.pos] = false
 			res.Count("cut_offsets_beyond_message_end", 1)
 		}
-		before[p.pos] = p.raw.Requests.Load()
 	}
 	for i, kind := range []string{"create", cs.Req} {
 		id := fmt.Sprintf("%s-f%d", tag, i)
@@ -552,8 +587,10 @@ func runC07Case(dir string, cs c07Case, tag string, res *ev.Result) {
 		}
 	}
 	for _, p := range faulty {
-		if drops[p.pos] && p.raw.Requests.Load() != before[p.pos] {
-			viol("failed-plugin-still-served/"+p.fault.kind, fmt.Sprintf("plugin %d failed (%s) but received %d further requests", p.pos, p.fault.kind, p.raw.Requests.Load()-before[p.pos]))
+		// by request id, not by a counter: the handler of the faulted request itself may still be starting
+		further := p.count(tag+"-f0") + p.count(tag+"-f1")
+		if drops[p.pos] && further != 0 {
+			viol("failed-plugin-still-served/"+p.fault.kind, fmt.Sprintf("plugin %d failed (%s) but received %d further requests", p.pos, p.fault.kind, further))
 		}
 	}
 	res.Seen(fmt.Sprintf("%s|pos%d/%d|%s|k%d|second=%s", cs.Fault, cs.Pos, cs.N, cs.Req, cs.K, cs.Second))
@@ -572,6 +609,13 @@ func c07Cases(tier string, g *rand.Rand) []c07Case {
 					continue // timeout cases are slow; the full cross product runs in the thorough tier
 				}
 				cs = append(cs, c07Case{Fault: f, Pos: pos, N: n, Req: req, K: g.IntN(4)})
+			}
+		}
+	}
+	for k := 0; k < 7; k++ {
+		for _, req := range c07ReqKinds {
+			if thorough || (k+len(req))%2 == 0 {
+				cs = append(cs, c07Case{Fault: "veto", Pos: 1, N: 3, Req: req, K: k})
 			}
 		}
 	}
